@@ -24,16 +24,38 @@ BUDGET_S = {"quick": 400, "thorough": 3000}
 EXHAUSTIVE = {"quick": True, "thorough": True}
 RULE = ("exhaustive: every DAG on <=4 (quick) / <=5 (thorough) labelled nodes as ground truth, through a callable "
         "d-separation oracle (variable order and set order varied) and through independence_match (pairwise-complete "
-        "list and the literal get_independencies() list), variants orig/stable/parallel, return types skeleton/pdag/dag, "
-        "max_cond_vars = n, = max degree and too small; random ground-truth DAGs on 6-8 nodes (callable oracle; CPDAG "
-        "checked against the specification's enumeration whenever the truth has <= 11 edges), dense 6-7 node truths and "
-        "relabelled copies of the 6-node witnesses of the repaired rule-4 defect; sessions (one PC object, 2-4 "
-        "estimate() groups with oracles of different ground truths from one factory, variants / return types / "
-        "max_cond_vars / significance levels mixed); "
-        "PC.skeleton_to_pdag on random skeletons with random separating sets; PDAG.to_dag on CPDAGs and on arbitrary "
-        "PDAGs with extendability decided by brute force.  Every PC output is compared with the model (same orders) and "
-        "with the specification's CPDAG / class membership / consistent-extension checker.  A case is non-trivial when "
-        "the graph has >=1 edge; distinct = distinct (kind, graph, orders, hash seed)")
+        "list, for truths all of whose nodes occur in it; and the literal get_independencies() list, model only where "
+        "inexact), variants orig/stable/parallel, return types skeleton/pdag/cpdag/dag, max_cond_vars = n, = max degree, "
+        "too small and 0; random ground-truth DAGs on 6-8 nodes (CPDAG checked against the specification's enumeration "
+        "whenever the truth has <= 11 edges), dense 6-7 node truths, relabelled 6-node witnesses of the repaired rule-4 "
+        "defect, 9-10 node truths; PC.skeleton_to_pdag on random skeletons with random separating sets; PDAG.to_dag on "
+        "CPDAGs and on arbitrary PDAGs with extendability decided by brute force.  Every PC output is compared with the "
+        "model (same orders) and with the specification's CPDAG / class membership / consistent-extension checker.  "
+        "Generalisation classes: "
+        "A sessions - one PC(data) object answering 2-4 groups of estimate() calls with oracles of different truths from "
+        "one factory (same __name__), one Independencies object and one PC(independencies=it) object with assertions "
+        "ADDED between calls (truth loses an edge), one PDAG object asked to_dag() repeatedly, one skeleton graph reused "
+        "with other separating sets; PC and Independencies have no other mutators in the property's scope, and edits "
+        "of a PDAG through inherited networkx mutators are outside it (to_dag reads the directed/undirected sets given at "
+        "construction).  B purity - data frame, Independencies list, skeleton graph and separating-set dict, PDAG ebunch "
+        "lists (then cleared and reused) equal to a snapshot after the call.  C result independence - every returned "
+        "skeleton graph / separating-set dict / PDAG / DAG / PDAG copy is wrecked (edges, nodes, attribute sets, latents) "
+        "before the next call, to_dag asked twice must answer the same with a distinct object.  D frames - 0-3 rows, "
+        "RangeIndex / shifted / permuted / gapped / duplicate / string index, int / bool / float / categorical columns "
+        "with unused categories, constant and varying values (the data is never read by the oracle).  E names - one name "
+        "a prefix of another (exact-order routes), keyword-like / empty / non-ASCII strings, ints >= 8, floats, mixed "
+        "int+str that do not sort (spec-only route); tuple names are rejected by pandas column selection and flattened "
+        "by IndependenceAssertion, so the API excludes them.  F state names, H magnitudes, I backends: not applicable - "
+        "with an exact oracle no state, number or tensor is read (significance_level is only forwarded; the forwarded "
+        "data / independencies / significance_level keyword arguments are checked).  G - single node, edgeless, isolated "
+        "nodes in results and in PDAGs, max_cond_vars = 0, empty PDAG, 9-10 variables.  J - variant and max_cond_vars "
+        "and return_type omitted (defaults), return_type in other letter case, build_skeleton called directly, "
+        "independence_match as name and as function object, n_jobs 1 and 2, show_progress, to_dag(required_edges), "
+        "PDAG latents.  K - estimate() with an invalid later argument (variant, return_type, ci_test name, "
+        "independence_match without independencies) must raise ValueError and leave the next call right; missing "
+        "separating set => KeyError.  L - column order, set order (names with a known global set order), PDAG ebunch "
+        "order, assertion argument order, 4/8 hash seeds.  A case is non-trivial when the graph has >=1 edge; distinct = "
+        "distinct (kind, graph, orders, hash seed)")
 TRUSTED_BASE = ["networkx Graph/DiGraph storage, EdgeView iteration order (node order, adjacency insertion order), "
                 "complete_graph, all_simple_paths (modelled by reachability over strictly directed arcs)",
                 "CPython set iteration order for collision-free small tables (checked at run time per worker by pick_names)",
@@ -45,10 +67,8 @@ ASSUMPTIONS = ["node names are interned to nat identifiers by the harness; the m
                "compared with the model only)"]
 
 VARIANTS = ["orig", "stable", "parallel"]
-# PDAG.to_dag hands its own latents set to the result (dag.latents = self.latents): mutating the result's latents
-# changes the PDAG.  Reported to the coordinator (unchanged-tree defect, class C); the probe is switched on once it
-# is repaired or listed.
-PROBE_LATENTS_ALIAS = False
+# PDAG.to_dag used to hand its own latents set to the result (repaired: d95bd5d, key to-dag-shares-latents)
+PROBE_LATENTS_ALIAS = True
 
 
 # ------------------------------------------------------------------ names with a known set-iteration order
@@ -153,7 +173,7 @@ def cases(tier, seed):
             out.append({"kind": "rand", "n": 6, "edges": [[perm[u], perm[v]] for u, v in w],
                         "oseed": rng.randint(0, 10**9), "njobs": 1, "src": "rule4-witness"})
     # dense-ish 6-7 node truths with an enumerable class: the region where that rule matters
-    nden = 250 if tier == "quick" else 3000
+    nden = 180 if tier == "quick" else 3000
     for i in range(nden):
         n = rng.choice([6, 6, 7])
         while True:
